@@ -6,10 +6,12 @@ import codec, wrap, targets, prune
 from present import type_name
 
 MODEL_TARGETS = ["model/De.vo", "spec/Denote.vo"]
-COQ_TARGETS = ["props/C12.vo"]
-THEOREMS = [("C12", ["C12_skip", "C12_skip_as_read", "C12_struct_lacking_fields", "C12_fewer_fields_agree", "C12_map_ignored_values", "C12_union_unit_variant", "C12_blocks_jump"])]
-PROOF_FILES = ["proofs/DeProofs.v", "proofs/DS1.v", "proofs/DS2.v", "proofs/DS3.v", "proofs/DS4.v", "proofs/DS5.v", "props/C12.v", "proofs/DS6.v"]
+COQ_TARGETS = ["props/C12.vo", "proofs/DeDispatchTie.vo"]
+THEOREMS = [("C12", ["C12_skip", "C12_skip_as_read", "C12_struct_lacking_fields", "C12_fewer_fields_agree", "C12_map_ignored_values", "C12_union_unit_variant", "C12_blocks_jump"]),
+            ("DeDispatchTie", ["tie_de_any", "tie_de_ignored", "tie_de_forward", "de_any_is_generated", "de_ignored_is_generated", "de_is_generated"])]
+PROOF_FILES = ["proofs/DeProofs.v", "proofs/DS1.v", "proofs/DS2.v", "proofs/DS3.v", "proofs/DS4.v", "proofs/DS5.v", "props/C12.v", "proofs/DS6.v", "proofs/DeDispatchTie.v"]
 TRUSTED_BASE = [
+    "dispatch tie: translators/gen_dispatch.py (+ rustmatch.py) reads the arms of every deserialize_* method of DatumDeserializer into gen/GenDeDispatch.v; proofs/DeDispatchTie.v proves that model/De.v's de is the interpretation of those regenerated tables (the meaning of each action symbol, act_sem, is hand-written there)",
     "Coq 8.16.1 kernel; no axioms (Print Assumptions: closed)",
     "spec/{AvroValue,Encoding,Denote,Wf}.v from the Avro specification: every legal encoding (any block split, negative counts with byte sizes) as encode_e of an evalue",
     "hand-written model/De.v, Reader.v of de/deserializer/** (incl. the ignored-any fast paths and skip_bytes) tied by the correspondence run",
